@@ -5,6 +5,7 @@ package runtime
 import (
 	"golang.org/x/text/unicode/norm"
 
+	"github.com/smarthome-go/homescript/v3/homescript/analyzer/ast"
 	"github.com/smarthome-go/homescript/v3/homescript/compiler"
 	pAst "github.com/smarthome-go/homescript/v3/homescript/parser/ast"
 	"github.com/smarthome-go/homescript/v3/homescript/runtime/value"
@@ -127,23 +128,25 @@ func binResult(op compiler.Opcode, l value.Value, r value.Value, v value.Value) 
 	return false
 }
 
-// admissible: the operand kinds the analyzer admits for a binary operator.
+// typeKindOf: the static type kind of a scalar runtime value.
+func typeKindOf(v value.Value) ast.TypeKind {
+	switch v.Kind() {
+	case value.IntValueKind:
+		return ast.IntTypeKind
+	case value.FloatValueKind:
+		return ast.FloatTypeKind
+	case value.BoolValueKind:
+		return ast.BoolTypeKind
+	case value.StringValueKind:
+		return ast.StringTypeKind
+	}
+	return ast.UnknownTypeKind
+}
+
+// admissible: the operand kinds the analyzer admits for a binary operator
+// (analyzer/ast VInfixAdmits read through the compiler's lowering table).
 func admissible(op compiler.Opcode, l value.Value, r value.Value) bool {
-	if l.Kind() != r.Kind() {
-		return false
-	}
-	k := l.Kind()
-	switch {
-	case op == compiler.Opcode_Add:
-		return k == value.IntValueKind || k == value.FloatValueKind || k == value.StringValueKind
-	case isArith(op) || isCompare(op):
-		return k == value.IntValueKind || k == value.FloatValueKind
-	case isIntOnly(op):
-		return k == value.IntValueKind
-	case isBitwise(op):
-		return k == value.IntValueKind || k == value.BoolValueKind
-	}
-	return false
+	return l.Kind() == r.Kind() && ast.VScalarKind(typeKindOf(l)) && ast.VInfixAdmits(compiler.VInfixOfOpcode(op), typeKindOf(l))
 }
 
 // divisorIsZero: the right operand of a division or remainder is zero.
@@ -218,9 +221,9 @@ func instrPre(c Core, i compiler.Instruction) bool {
 	case compiler.Opcode_JumpIfFalse:
 		return c.okTop(1) && c.peek(0).Kind() == value.BoolValueKind
 	case compiler.Opcode_Neg:
-		return c.okTop(1) && (c.peek(0).Kind() == value.IntValueKind || c.peek(0).Kind() == value.FloatValueKind)
+		return c.okTop(1) && ast.VScalarKind(typeKindOf(c.peek(0))) && ast.VPrefixAdmits(pAst.MinusPrefixOperator, typeKindOf(c.peek(0)))
 	case compiler.Opcode_Not:
-		return c.okTop(1) && (c.peek(0).Kind() == value.IntValueKind || c.peek(0).Kind() == value.BoolValueKind)
+		return c.okTop(1) && ast.VScalarKind(typeKindOf(c.peek(0))) && ast.VPrefixAdmits(pAst.NegatePrefixOperator, typeKindOf(c.peek(0)))
 	case compiler.Opcode_GetVarImm:
 		return c.MemoryPointer-i.(compiler.OneIntInstruction).Value >= 0 && c.MemoryPointer-i.(compiler.OneIntInstruction).Value < int64(len(c.Memory))
 	case compiler.Opcode_SetVarImm:
